@@ -16,6 +16,20 @@ def run(ctx):
     if not r.ok:
         ctx.design_violation("OrderRun", "OrderRun_q.cfg", r)
     jobs = sessions(ctx, cfgs, "C18")
+    # the documented default request (no --chromosome_order) on a graph with exactly chr1..chr22, chrX, chrY, chrM, one of which
+    # (chr7) has a branching tip on its middle segment: it is skipped, the other 24 are ordered
+    default = [f"chr{i}" for i in range(1, 23)] + ["chrX", "chrY", "chrM"]
+    nodes, links, chroms = [], [], []
+    for k, c in enumerate(default):
+        ids = [f"s{100 + 4 * ((7 * k) % 25) + j}" for j in range(4)]
+        nodes += [{"id": ids[j], "sn": c, "so": 2 * j, "ln": 2, "sr": 0} for j in range(3)]
+        links += [{"a": ids[0], "ao": "+", "b": ids[1], "bo": "+"}, {"a": ids[1], "ao": "+", "b": ids[2], "bo": "+"}]
+        bad = c == "chr7"
+        if bad:
+            nodes.append({"id": ids[3], "sn": "alt" + ids[3][1:], "so": 0, "ln": 2, "sr": 1})
+            links.append({"a": ids[1], "ao": "+", "b": ids[3], "bo": "+"})
+        chroms.append({"name": c, "bad": bad, "elems": [{"k": "b", "ns": [ids[0]]}, {"k": "s", "ns": [ids[1]]}, {"k": "b", "ns": [ids[2]]}]})
+    jobs.append(("default25bad", {"nodes": nodes, "links": links, "chroms": chroms}, "C18", ctx.seed, {"default_order": True}))
     finish(ctx, jobs, "C18")
     ctx.exhaustive = True
     ctx.assumptions += ["defects are built by the generator: branch, branchalt, branchref (a dead end on the reference allele of a bubble), join (a piece of another contig attached through a haplotype node), cycle3, cycle3in"]
